@@ -361,7 +361,7 @@ def hMbSd (args : List String) (real : Option String) : Option Out := do
         if !(phaseOk p1 && phaseOk p2) then "FAIL C10.leader"
         else if !(admitted p1) then "FAIL C10.restarted-follower-not-admitted"
         else verdict (realClosed.all fun i => f1.contains i || f2.contains i) "C10.live-follower-dropped"
-      | _ => "FAIL C10.unparsable"
+      | _ => if (phases.headD "").startsWith "flap-reannounced" then "FAIL C10.reannounced-same-numbering" else "FAIL C10.unparsable"
   some { model, verdict := v }
 
 def membershipHandlers : List (String × (List String → Option String → Option Out)) :=
